@@ -74,7 +74,7 @@ def unit_verdict(ur, mutate=False):
     und = list(res.undecided)
     if ur.unlisted:
         und.append('assumptions not on the unit allow-list: ' + '; '.join(ur.unlisted))
-    if not mutate:
+    if not mutate and not res.compile_errors:
         # vacuity guard: each vac fn must be rejected
         vac_hit = {o.item for o in res.vac_failed}
         for key in asm.vac_ranges:
@@ -108,14 +108,13 @@ def dev_unit(name, verbose, mutant=None):
         if verbose: print('vac-ok ', o.item)
     for u in und:
         print('UNDECIDED', u)
-    if verbose and res.rc != 0 and not failed:
+    if verbose:
+        seen = set()
+        for m, r in res.compile_errors:
+            if m not in seen:
+                seen.add(m); print(r)
         for line in res.stderr.split('\n'):
-            if line.startswith('{'):
-                try:
-                    d = json.loads(line)
-                    if d.get('level') == 'error': print(d.get('rendered', ''))
-                except Exception: pass
-            elif line.strip(): print(line)
+            if line.strip() and not line.startswith('{'): print(line)
     return 1 if failed else (2 if und else 0)
 
 
